@@ -14,6 +14,12 @@ Import ListNotations.
 From Verif Require Import Lib.Corr Gen.C22 Model.C22 Proofs.C22.
 Open Scope Z_scope.
 
+(* canReturnEarly and the decisions of fanoutForward's response loop still have
+   the shape the hand model was written from. *)
+Theorem C22_source_shape : shape_ok = true.
+Proof. exact shape_holds. Qed.
+Print Assumptions C22_source_shape.
+
 (* Acknowledged <-> every series was stored by at least q replicas; for any
    number of series spread over any nodes, any outcome per (node, replica) and
    ANY arrival order. *)
@@ -72,8 +78,8 @@ Theorem C22_request_pred : forall rf rep place ws, 1 <= rf -> 0 <= rep ->
   exists o, handle rf rep place ws = Some o
     /\ (o = OAck -> rep <= rf ->
         quorum_everywhere (List.length place) (success_threshold rf rep) (resps_of place ws) = true
-        /\ exists k, (k <= List.length ws)%nat /\ forall d obs, (k <= d)%nat ->
-             pred_ok (CAck rf rep place ws obs 200 d) = true)
+        /\ exists k, (k <= List.length ws)%nat /\ forall d obs obsr, (k <= d)%nat ->
+             pred_ok (CAck rf rep place ws obs obsr 200 d) = true)
     /\ (o = OFail -> quorum_everywhere (List.length place) (success_threshold rf rep) (resps_of place ws) = false).
 Proof. exact handle_pred. Qed.
 Print Assumptions C22_request_pred.
